@@ -107,6 +107,24 @@ func viewObs(v *View) []string {
 	return out
 }
 
+func sliceVsItems(v *View) (why string) {
+	defer func() {
+		if r := recover(); r != nil {
+			why = "" // a panic while observing is the digest's business
+		}
+	}()
+	sl := v.Slice()
+	if len(sl) != v.Len() {
+		return fmt.Sprintf("Slice() has %d items, Len() is %d", len(sl), v.Len())
+	}
+	for i, s := range sl {
+		if it := v.Item(i); it != s {
+			return fmt.Sprintf("Slice()[%d] reads %s, ItemAt(%d) is %s: an earlier result of Slice() that its caller overwrote shows through", i, s, i, it)
+		}
+	}
+	return ""
+}
+
 func viewDigest(v *View) uint64 {
 	h := uint64(0xcbf29ce484222325)
 	for _, s := range viewObs(v) {
@@ -170,6 +188,13 @@ func (m *Member) Changed() (bool, string) {
 			if now := m.V.Item(i); s != now {
 				return true, fmt.Sprintf("the pointer ItemAt(%d) returned reads %s after the other items were fetched, the item is %s", i, s, now)
 			}
+		}
+	}
+	if m.Kind == KView {
+		// Slice() is "all items": what an earlier Slice() handed out, and the caller overwrote
+		// since (makeView does), must not show through a later one
+		if why := sliceVsItems(m.V); why != "" {
+			return true, why
 		}
 	}
 	if m.Digest() == m.Dig {
